@@ -799,6 +799,24 @@ func checkC04(c *Ctx) {
 				c.Sample(3, map[string]any{"request": req, "expected_unresolved": want, "error": ierr.Error()})
 			}
 		}
+		// the cache told to use no directories at all: nothing resolves any more, whatever it
+		// had loaded (asked on a copy of the cache's configuration: a second cache object)
+		if chance(r, 20) && len(devs) > 0 {
+			emptied, _ := cdi.NewCache(cdi.WithSpecDirs(p.Conf...), cdi.WithAutoRefresh(chance(r, 50)))
+			emptied.ListDevices()
+			emptied.Configure(cdi.WithSpecDirs())
+			defer releaseCache(emptied)
+			req := append([]string{}, devs[:min(len(devs), 3)]...)
+			spec := genOCI(r)
+			beforeJSON, _ := json.Marshal(spec)
+			unres, ierr := emptied.InjectDevices(spec, req...)
+			afterJSON, _ := json.Marshal(spec)
+			c.Count("requests_to_a_cache_reconfigured_to_no_directories", 1)
+			if ierr == nil || !reflect.DeepEqual(unres, req) || string(beforeJSON) != string(afterJSON) || len(emptied.ListDevices()) > 0 {
+				cs.Violation("misses", map[string]string{"what": "no-directories"}, fmt.Sprintf("after Configure(WithSpecDirs()) (no directories) InjectDevices(%q) = %q, %v; ListDevices = %v (expected every name unresolved, an untouched OCI spec and no devices)", req, unres, ierr, emptied.ListDevices()), map[string]any{"population": p.Describe()})
+				return
+			}
+		}
 		// nil OCI spec
 		req := []string{"vendor.com/gpu=dev0", "x"}
 		if len(devs) > 0 {
